@@ -23,7 +23,7 @@ import json
 m=json.load(open('$V/seeded/$id/meta.json'))
 print(' '.join('%s=%s'%(k,v) for k,v in m.get('env',{}).items()))")
   out=$(env MUT_BUDGET=${MUT_BUDGET:-30} $envs tools/mutant.sh seeded/$id/patch.diff $checks 2>&1)
-  cls=$(echo "$out" | grep -o "class=[^ ]*" | head -1)
-  if echo "$out" | grep -q "VIOLATION"; then echo "$id: caught by $checks ($cls)"; else echo "$id: MISSED by $checks"; echo "$out" | tail -3; missed=1; fi
+  cls=$(echo "$out" | grep -a -o "class=[^ ]*" | head -1)
+  if echo "$out" | grep -a -q "VIOLATION"; then echo "$id: caught by $checks ($cls)"; else echo "$id: MISSED by $checks"; echo "$out" | tail -3; missed=1; fi
 done
 exit $missed
